@@ -33,7 +33,13 @@ def _gaps(text):
         if kind == 'word' and text[s:e].isdigit():
             numeric_edges.add(s)
             numeric_edges.add(e)
-    return [g for g in T.gaps(text) if g[0] not in numeric_edges]
+    # the end of a `//` comment is still inside the comment: a fragment appended there is comment text
+    line_comment_ends = {e for kind, s_, e in toks if kind == 'comment' and text[s_:s_ + 2] == '//'}
+    inside_block = set()
+    for kind, s_, e in toks:
+        if kind == 'comment':
+            inside_block.update(range(s_ + 1, e))
+    return [g for g in T.gaps(text) if g[0] not in numeric_edges and g[0] not in line_comment_ends and g[0] not in inside_block]
 
 
 def insertion(element, batch, K, size=4):
@@ -143,6 +149,12 @@ def instances(tier):
                 out.append({'name': f'sub/{fam}/{element}/b{b}', 'factory': 'substitution',
                             'params': {'element': element, 'family': fam, 'batch': b}, 'timeout': T1, 'native_limit': 60})
     if quick:
+        have = {i['name'] for i in out}
+        for b in range(1, _count('commented', 'insertion'), 2):      # faults between / inside commented regions
+            nm = f'ins/commented/b{b}/K1'
+            if nm not in have:
+                out.append({'name': nm, 'factory': 'insertion', 'params': {'element': 'commented', 'batch': b, 'K': 1}, 'timeout': T1,
+                            'native_limit': 60})
         out.append({'name': 'ins/enum/b2/K2', 'factory': 'insertion', 'params': {'element': 'enum', 'batch': 2, 'K': 2}, 'timeout': T1,
                     'native_limit': 80})
     else:
